@@ -30,11 +30,21 @@ pub fn add_small_trace(_v: &mut VecType, y: Limb) -> Option<()> {
     Some(())
 }
 
-pub fn contract<const NI: usize, const NF: usize, const MAX: usize>() {
+pub fn contract<const NI: usize, const NF: usize, const MAX: usize, const Z: usize>() {
     let int: [u8; NI] = any_digits();
-    let frac: [u8; NF] = any_digits();
+    let mut frac: [u8; NF] = any_digits();
     if NI > 0 {
         kani::assume(int[0] != b'0');
+    } else {
+        // empty integer part: exactly Z leading fraction zeros (enumerated, see pn::contract)
+        let mut z = 0;
+        while z < Z && z < NF {
+            frac[z] = b'0';
+            z += 1;
+        }
+        if Z < NF {
+            kani::assume(frac[Z] != b'0');
+        }
     }
     unsafe {
         T_N = 0;
